@@ -1,7 +1,15 @@
 //! Verification hook: public wrapper of the connection pool (pool::PoolWatch).
 use std::collections::HashSet;
 
+use zksync_concurrency::sync;
+
 use crate::pool::PoolWatch;
+
+/// The pool's sender lock, held. While it lives every `insert` / `remove` queues behind it (the lock is tokio's
+/// fair FIFO mutex); dropping it lets them through in the order in which they queued.
+pub struct LockGuard<'a, K, V>(
+    #[allow(dead_code)] sync::MutexGuard<'a, sync::watch::Sender<crate::pool::Pool<K, V>>>,
+);
 
 /// Public newtype around the crate-private `PoolWatch`. Adds no behaviour.
 pub struct Pool<K, V>(PoolWatch<K, V>);
@@ -15,6 +23,12 @@ impl<K: std::hash::Hash + Eq + Clone, V: Clone> Pool<K, V> {
     /// `PoolWatch::insert`.
     pub async fn insert(&self, k: K, v: V) -> anyhow::Result<()> {
         self.0.insert(k, v).await
+    }
+
+    /// Holds the sender lock that `PoolWatch::insert` / `PoolWatch::remove` serialise on, so that a harness can
+    /// force contention deterministically. Adds no behaviour to the pool.
+    pub async fn hold_lock(&self) -> LockGuard<'_, K, V> {
+        LockGuard(self.0.verif_lock().await)
     }
 
     /// `PoolWatch::remove`.
